@@ -33,6 +33,7 @@ K_ITEMSIZE0 = "c19:itemsize-zero-dtype"
 K_NEG = "c19:memmap-negative-stride-view"
 K_FLOOR = "c19:memmap-buffer-len-floor-nonmultiple-stride"
 K_MATRIX = "c19:matrix-subclass-lost-numpy2"
+K_REUSE = "c19:unmanaged-repeated-call:temp-file-of-previous-call-reused-while-its-unlink-is-pending"
 
 
 def run_impl_cases(cases, timeout=1500):
@@ -542,6 +543,41 @@ def judge_loky_seq(c, r):
     return None
 
 
+def reuse_signature(c, r):
+    """does a failure of an UNMANAGED repeated-call loop carry the signature of known finding F54?  (the temporary file of
+    the previous call is reused while its unlink is pending: the worker cannot open it, or the task sees the content
+    the array had at the previous call)"""
+    if not c.get("unmanaged"):
+        return False
+    rows = r.get("rows", [])
+    if "parallel_raise" in r:
+        return (len(rows) >= 1 and "BrokenProcessPool" in r["parallel_raise"] and "un-serialize" in r["parallel_raise"]
+                and ("FileNotFoundError" in r.get("cause", "") or "load_temporary_memmap" in r.get("cause", "")
+                     or r.get("cause") in (None, "None", "")))
+    bad_rows = [i for i, row in enumerate(rows) if any(g["digest"] != row["want"]["digest"] for g in row["got"])]
+    return bool(bad_rows) and all(i >= 1 and all(g["digest"] in (rows[i]["want"]["digest"], rows[i - 1]["want"]["digest"])
+                                                 for g in rows[i]["got"]) for i in bad_rows)
+
+
+def judge_reuse_witness(r):
+    """(description, is the known finding) for the deterministic witness"""
+    if "harness_error" in r:
+        return "the witness could not be run: " + r["harness_error"] + r.get("tb", "")[-300:], False
+    calls = r["calls"]
+    for i, cl in enumerate(calls):
+        if "raise" in cl:
+            ok = i >= 1 and "BrokenProcessPool" in cl["raise"]
+            return ("unmanaged Parallel(n_jobs=2, max_nbytes=0) called again with the same array while the unlink of the "
+                    "previous call's temporary file is pending: call %d raised %s" % (i + 1, cl["raise"])), ok
+        if any(g != "np.float64(%r)" % cl["want"] for g in cl["got"]):
+            prev = calls[i - 1]["want"] if i else None
+            ok = i >= 1 and all(g in ("np.float64(%r)" % cl["want"], "np.float64(%r)" % prev) for g in cl["got"])
+            return ("unmanaged Parallel(n_jobs=2, max_nbytes=0) called again with the same array (changed in place to %r) "
+                    "while the unlink of the previous call's temporary file is pending: the tasks of call %d saw %s -- the "
+                    "content of the previous call" % (cl["want"], i + 1, sorted(set(cl["got"])))), ok
+    return None, False
+
+
 def judge_loky_loop(c, r):
     if "harness_error" in r:
         return "the case could not be run: " + r["harness_error"] + r.get("tb", "")[-300:]
@@ -928,9 +964,14 @@ def run(ctx):
         if bad:
             # a sampled real-backend run: retried once in a fresh interpreter; a failure that does not repeat is
             # reported as inconclusive coverage, not as a violation (BUILDER_GUIDE: never decide on wall-clock luck)
+            if reuse_signature(c, r):
+                known_hits[K_REUSE] = known_hits.get(K_REUSE, 0) + 1      # known finding F54, shown by its witness below
+                continue
             r2 = run_impl_cases([c])[0]
             bad2 = judge_loky_loop(c, r2)
-            if bad2:
+            if bad2 and reuse_signature(c, r2):
+                known_hits[K_REUSE] = known_hits.get(K_REUSE, 0) + 1
+            elif bad2:
                 oracle_fail.append((bad2, c, {"rows": r2.get("rows", [])[:3], "first_attempt": bad}, None))
             else:
                 inconclusive.append({"case": c, "first_attempt": bad})
@@ -969,6 +1010,17 @@ def run(ctx):
         else:
             ctx.violation("the witness of a C19 _refuted theorem (%s) no longer fails on the implementation: the model is stale"
                           % key, {"kind": "stale-refutation", "case": c, "key": key}, found_input=False)
+    # F54: deterministic witness (the resource tracker is stopped so that the previous call's unlink is pending)
+    wr = run_impl_cases([{"mode": "reuse_race"}], timeout=400)[0]
+    wbad, wknown = judge_reuse_witness(wr)
+    if wbad and wknown:
+        ctx.violation(wbad, {"kind": "known-finding", "case": {"mode": "reuse_race"}}, True, finding_key=K_REUSE)
+        known_hits[K_REUSE] = known_hits.get(K_REUSE, 0) + 1
+    elif wbad:
+        ctx.violation(wbad, {"kind": "oracle", "case": {"mode": "reuse_race"}, "impl": wr}, True)
+    else:
+        ctx.violation("the witness of known finding F54 (%s) no longer fails on the implementation: the entry is stale" % K_REUSE,
+                      {"kind": "stale-refutation", "case": {"mode": "reuse_race"}, "key": K_REUSE, "impl": wr}, found_input=False)
     # decide
     reported = 0
     known_ids = {f["key"] for f in ctx.known if f["property"] == "C19" and f["kind"] == "known"}
@@ -1050,6 +1102,9 @@ def replay(ctx, path):
         bad = judge_reduce(c, r, ctx.rng)
     elif c["mode"] == "route":
         b = judge_route(c, r)
+        bad = (b, None) if b else None
+    elif c["mode"] == "reuse_race":
+        b, _ = judge_reuse_witness(r)
         bad = (b, None) if b else None
     elif c["mode"] == "loky_seq":
         b = judge_loky_seq(c, r)
